@@ -6,10 +6,10 @@ CONSTANTS
   GuardControl = TRUE
   SafeDecode = TRUE
   GuardEndpoint = TRUE
-  RelayClientChecked = TRUE
+  RelayClientChecked = FALSE
   NoSigpipe = TRUE
   MaxHist = 4
-INVARIANTS Reach_HostileEndpointParsed
+INVARIANTS C35_NoThrow
 VIEW View
 CONSTRAINT Bound
 CHECK_DEADLOCK FALSE
